@@ -111,3 +111,41 @@ func VpC01_TWCCTyped(a []int) {
 	vpObserveBool("err", err != nil)
 	vpReach("end")
 }
+
+// VpC01_TWCCWrap: a TransportLayerCC packet with packet status count 65535
+// whose chunk area repeats a[0] times the sequence "8 run-length chunks of
+// 8191 received packets, one all-ones one-bit vector chunk"; header fields
+// other than type, length and status count are symbolic. The memory clause
+// of the property is asserted (the decoder's 16-bit counter of processed
+// statuses must not let the chunk loop start over).
+func VpC01_TWCCWrap(a []int) {
+	var chunks []uint16
+	for k := 0; k < a[0]; k++ {
+		for i := 0; i < 8; i++ {
+			chunks = append(chunks, 1<<13|8191)
+		}
+		chunks = append(chunks, 0xbfff)
+	}
+	hdr := vpBytes(20)
+	b := vpC13Packet(chunks, 65535, hdr, nil)
+	err := new(TransportLayerCC).Unmarshal(b)
+	vpAssert("C01.alloc-bounded", vpAllocBytes() <= 4<<20+64*len(b))
+	vpObserveBool("err", err != nil)
+	vpReach("end")
+}
+
+// VpC01_XRBlock: ExtendedReport.Unmarshal on a[1] octets whose first report
+// block has type a[0]; everything else symbolic (the block decoders are driven
+// by reflection over the block structs, so fixing the type keeps the control
+// flow of one block kind per case and allows longer buffers).
+func VpC01_XRBlock(a []int) {
+	n := a[1]
+	b := vpBytes(n)
+	if n > 8 {
+		vpAssume(int(b[8]) == a[0])
+	}
+	err := new(ExtendedReport).Unmarshal(b)
+	vpAssert("C01.alloc-bounded", vpAllocBytes() <= 4<<20+64*n)
+	vpObserveBool("err", err != nil)
+	vpReach("end")
+}
